@@ -1,4 +1,139 @@
-import PrimitivModel.Model.KernelsArith
+import PrimitivModel.Lemmas.ArithIndex
+import PrimitivModel.Props.C02.Arith
+/-
+C03 (minibatch law), arithmetic kernels.
+
+`sample stride b x` is the b-th sample of a buffer addressed with batch stride `stride` (`stride = 0`: the
+operand has batch 1 and is shared by all samples).
+
+* forward: sample `b` of `kernel(batch)` is `kernel` run on the b-th samples alone
+  (`binary_fwd_law`, `scalar_fwd_law`, `matmul_fwd_law`);
+* backward: an accumulator with the full stride receives the per-sample gradient, an accumulator with stride 0
+  (batch-1 operand) receives the SUM of the per-sample gradients (`add_bwd_law`, `multiply_bwd_law`,
+  `inplace_add_law`);
+* incompatible batch sizes are rejected by the front end (`incompatible_batch_rejected`).
+The elementwise unary / const kernels are one flat loop over `size()`: they do not distinguish samples at all.
+-/
 namespace Primitiv.C03.Arith
-theorem placeholder : True := trivial
+open Primitiv Primitiv.Arith Finset
+
+/-- the b-th sample of a batch-strided buffer -/
+def sample {α : Type} (stride b : Nat) (x : Buf α) : Buf α := fun i => x (b * stride + i)
+
+section fwd
+variable {α : Type}
+
+/-- closed form of the broadcasting forward loop -/
+theorem binFw_apply (op : α → α → α) (size bs skipA skipB : Nat) (a b' : Buf α) (junk : α) {b i : Nat}
+    (hb : b < bs) (hi : i < size) :
+    binFw op size bs skipA skipB a b' junk (b * size + i) = op (a (b * skipA + i)) (b' (b * skipB + i)) := by
+  unfold binFw
+  exact writeAt_of_nodup (range2 bs size) (fun t => t.1 * size + t.2) _ junk (range2_addr_nodup bs size)
+    (t := (b, i)) (mem_range2.mpr ⟨hb, hi⟩)
+
+/-- Batch.fwd_law for add / subtract / multiply / divide / pow: for every assignment of batch sizes {1, B} to
+the operands (strides 0 / size), sample b of the batched result is the kernel on the b-th samples. -/
+theorem binary_fwd_law (op : α → α → α) (size bs skipA skipB : Nat) (a b' : Buf α) (junk : α) {b i : Nat}
+    (hb : b < bs) (hi : i < size) :
+    sample size b (binFw op size bs skipA skipB a b' junk) i
+      = binFw op size 1 0 0 (sample skipA b a) (sample skipB b b') junk (0 * size + i) := by
+  rw [binFw_apply op size 1 0 0 _ _ junk Nat.zero_lt_one hi]
+  simp only [sample, Nat.zero_mul, Nat.zero_add]
+  exact binFw_apply op size bs skipA skipB a b' junk hb hi
+
+theorem scalarFw_apply (op : α → α → α) (size bs skipX skipK : Nat) (x k : Buf α) (junk : α) {b i : Nat}
+    (hb : b < bs) (hi : i < size) :
+    scalarFw op size bs skipX skipK x k junk (b * size + i) = op (x (b * skipX + i)) (k (b * skipK)) := by
+  unfold scalarFw
+  exact writeAt_of_nodup (range2 bs size) (fun t => t.1 * size + t.2) _ junk (range2_addr_nodup bs size)
+    (t := (b, i)) (mem_range2.mpr ⟨hb, hi⟩)
+
+/-- the eight `*_scalar_*` kernels -/
+theorem scalar_fwd_law (op : α → α → α) (size bs skipX skipK : Nat) (x k : Buf α) (junk : α) {b i : Nat}
+    (hb : b < bs) (hi : i < size) :
+    sample size b (scalarFw op size bs skipX skipK x k junk) i
+      = scalarFw op size 1 0 0 (sample skipX b x) (sample skipK b k) junk (0 * size + i) := by
+  rw [scalarFw_apply op size 1 0 0 _ _ junk Nat.zero_lt_one hi]
+  simp only [sample, Nat.zero_mul, Nat.zero_add, Nat.add_zero]
+  exact scalarFw_apply op size bs skipX skipK x k junk hb hi
+
+end fwd
+
+section matmul
+variable {α : Type} [CommRing α]
+
+/-- matmul: sample `bn` of the batched product is the product of the samples (batch-1 operands shared) -/
+theorem matmul_fwd_law (D : MatDims) (a b : Buf α) (junk : α) {bn k i : Nat}
+    (hbn : bn < D.bs) (hk : k < D.d3) (hi : i < D.d1) :
+    sample (D.d3 * D.d1) bn (matmulFw 0 D a b junk) (k * D.d1 + i)
+      = matmulFw 0 { D with bs := 1, skipA := 0, skipB := 0 } (sample D.skipA bn a) (sample D.skipB bn b) junk
+          (0 * (D.d3 * D.d1) + (k * D.d1 + i)) := by
+  have h1 := C02.Arith.matmul_spec D a b junk hbn hk hi
+  have h2 := C02.Arith.matmul_spec { D with bs := 1, skipA := 0, skipB := 0 } (sample D.skipA bn a)
+    (sample D.skipB bn b) junk (bn := 0) (k := k) (i := i) Nat.zero_lt_one hk hi
+  simp only [sample] at h2 ⊢
+  rw [h1, h2]
+  simp
+example : (0 : Nat) < 1 := Nat.zero_lt_one
+
+end matmul
+
+section bwd
+variable {α : Type} [CommRing α]
+
+/-- Batch.bwd_law, add: a batch-1 operand (stride 0) receives `Σ_b gy[b,i]`, a batched one `gy[b,i]` -/
+theorem add_bwd_law (size bs : Nat) (gy ga gb : Buf α) {b i : Nat} (hb : b < bs) (hi : i < size) :
+    (addBw size bs 0 size gy ga gb).ga i = ga i + ∑ c ∈ range bs, gy (c * size + i) ∧
+    (addBw size bs 0 size gy ga gb).gb (b * size + i) = gb (b * size + i) + gy (b * size + i) := by
+  unfold addBw
+  exact ⟨scatter_shared_sum bs size (fun t => gy (t.1 * size + t.2)) (ga i) hi,
+    scatter_batched bs size (fun t => gy (t.1 * size + t.2)) (gb (b * size + i)) hb hi⟩
+
+/-- multiply with a shared `a` (e.g. a Parameter) and a batched `b`: `ga[i] += Σ_c gy[c,i]·b[c,i]`,
+`gb[b,i] += gy[b,i]·a[i]` — the gradient of the shared operand is the sum of the per-sample gradients -/
+theorem multiply_bwd_law (size bs : Nat) (a b' gy ga gb : Buf α) {b i : Nat} (hb : b < bs) (hi : i < size) :
+    (multiplyBw size bs 0 size a b' gy ga gb).ga i = ga i + ∑ c ∈ range bs, gy (c * size + i) * b' (c * size + i) ∧
+    (multiplyBw size bs 0 size a b' gy ga gb).gb (b * size + i)
+      = gb (b * size + i) + gy (b * size + i) * a (b * 0 + i) := by
+  unfold multiplyBw
+  exact ⟨scatter_shared_sum bs size (fun t => gy (t.1 * size + t.2) * b' (t.1 * size + t.2)) (ga i) hi,
+    scatter_batched bs size (fun t => gy (t.1 * size + t.2) * a (t.1 * 0 + t.2)) (gb (b * size + i)) hb hi⟩
+
+/-- `inplace_add(x, y)` with a batch-1 destination and a batched source (the folding the backward kernels and
+`Parameter::gradient() +=` rely on): `y[i] += Σ_b x[b,i]`; batched destination, shared source: `y[b,i] += x[i]` -/
+theorem inplace_add_law (size bs : Nat) (x y : Buf α) {b i : Nat} (hb : b < bs) (hi : i < size) :
+    inplaceAdd size bs 0 size x y i = y i + ∑ c ∈ range bs, x (c * size + i) ∧
+    inplaceAdd size bs size 0 x y (b * size + i) = y (b * size + i) + x (b * 0 + i) := by
+  unfold inplaceAdd
+  exact ⟨scatter_shared_sum bs size (fun t => x (t.1 * size + t.2)) (y i) hi,
+    scatter_batched bs size (fun t => x (t.1 * 0 + t.2)) (y (b * size + i)) hb hi⟩
+example : (1 : Nat) < 2 ∧ (0 : Nat) < 3 := by decide
+
+end bwd
+
+/-- batch sizes other than equal-or-1 are rejected by every broadcasting entry point (shape_ops::elementwise) -/
+theorem incompatible_batch_rejected {α : Type} (op : α → α → α) (a b : Tensor α) (junk : α)
+    (h : a.shape.batch ≠ b.shape.batch ∧ a.shape.batch ≠ 1 ∧ b.shape.batch ≠ 1) :
+    (devBinFw op a b junk).toOption = none := by
+  have hc : a.shape.hasCompatibleBatch b.shape = false := by
+    simp [Shape.hasCompatibleBatch, h.1, h.2.1, h.2.2]
+  simp only [devBinFw, ShapeOps.elementwise, hc, Bool.not_false, Bool.or_true, if_true]
+  rfl
+example : (2 : Nat) ≠ 3 ∧ (2 : Nat) ≠ 1 ∧ (3 : Nat) ≠ 1 := by decide
+
+/-- conv2d: sample `bn` of the batched result is conv2d of the samples (follows from `conv2d_spec` the way
+`matmul_fwd_law` follows from `matmul_spec`); stated, not proved. -/
+def conv2d_batch_law_full : Prop :=
+  ∀ (D : ConvDims) (x w : Buf ℚ) (junk : ℚ), D.yShift = D.yc * (D.yw * D.yh) →
+    ∀ s ∈ D.outer, conv2dFw 0 D x w junk (C02.Arith.convCell D s)
+      = conv2dFw 0 { D with bs := 1, xShift := 0, wShift := 0 } (sample D.xShift s.1 x) (sample D.wShift s.1 w) junk
+          (C02.Arith.convCell { D with bs := 1 } (0, s.2))
+
+/-- max_pool2d treats the `channels × batch` planes independently: plane `r` of the result depends on plane `r`
+of x only; stated, not proved. -/
+def max_pool2d_batch_law_full : Prop :=
+  ∀ (D : PoolDims) (x x' : Buf ℚ) (lowest junk : ℚ) (t : Nat × Nat × Nat), t ∈ D.outer →
+    (∀ a < D.xh * D.xw, x (D.xbase t + a) = x' (D.xbase t + a)) →
+    maxPoolFw lowest D x junk (D.ya t) = maxPoolFw lowest D x' junk (D.ya t)
+
 end Primitiv.C03.Arith
